@@ -33,7 +33,7 @@ def rand_model(rng, kinds=('kingman', 'beta', 'dirac')):
     if k == 'kingman':
         return {'kind': 'kingman'}
     if k == 'beta':
-        return {'kind': 'beta', 'alpha': rng.choice([1.25, 1.5, 1.75, 1.125, 1.875]), 'scale_time': False}
+        return {'kind': 'beta', 'alpha': rng.choice([1.25, 1.5, 1.75, 1.125, 1.875]), 'scale_time': rng.random() < 0.4}
     return {'kind': 'dirac', 'psi': rng.choice([0.25, 0.5, 0.75, 0.125]), 'c': rng.choice([0.5, 1.0, 2.0, 8.0]),
             'scale_time': rng.random() < 0.5}
 
@@ -46,7 +46,8 @@ def rand_times(rng, n_changes, tmax=4.0, den=8):
 
 
 def rand_spec(rng, n_total=None, n_demes=None, n_epochs=None, kinds=('kingman', 'beta', 'dirac'),
-              loci=1, exact_sizes=True, names=None, end_time='maybe', size_range=(-3, 3), isolation=False):
+              loci=1, exact_sizes=True, names=None, end_time='maybe', size_range=(-3, 3), isolation=False,
+              mig_only_boundary=False):
     n_demes = n_demes or rng.choice([1, 1, 2, 2, 3])
     n_total = n_total or rng.choice([2, 3, 3, 4, 4, 5])
     n_epochs = n_epochs or rng.choice([1, 1, 2, 3])
@@ -86,6 +87,14 @@ def rand_spec(rng, n_total=None, n_demes=None, n_epochs=None, kinds=('kingman', 
             d = spec['migration_rates'][k]
             d['0.0'] = 0.0
             d[t1] = d.get(t1) or 0.5
+    if n_demes > 1 and mig_only_boundary:
+        # one more boundary at which ONLY migration rates change (all sizes stay as they are)
+        t_new = max(change_times) + rng.choice([0.25, 0.5, 1.0])
+        ks = list(spec['migration_rates'])
+        for k in rng.sample(ks, rng.randrange(1, len(ks) + 1)):
+            d = spec['migration_rates'][k]
+            last = d[max(d, key=float)]
+            d[repr(t_new)] = rng.choice([v for v in (0.125, 0.5, 2.0, 4.0) if v != last])
     if end_time == 'always' or (end_time == 'maybe' and rng.random() < 0.5):
         spec['end_time'] = dyadic(rng, 0.5, 6, 4)
     return spec
